@@ -9,12 +9,14 @@ import (
 	"fmt"
 	"os"
 	"path/filepath"
+	"sort"
 	"strconv"
 	"strings"
 	"sync"
 	"sync/atomic"
 	"syscall"
 	"testing"
+	"time"
 
 	"github.com/mutagen-io/mutagen/pkg/synchronization/core"
 	"github.com/mutagen-io/mutagen/pkg/verifhook"
@@ -145,6 +147,8 @@ type c12case struct {
 	// Fault, when set, makes this a case of the mid-file fault leg (Tree, Sym,
 	// Perm and Patterns are then unused: fixed tree, portable/portable).
 	Fault *c12fault `json:",omitempty"`
+	// Warm, when set, makes this a case of the warm leg (its own modes).
+	Warm *c12warm `json:",omitempty"`
 }
 
 func (tr c12tree) hasIgnoredName() bool {
@@ -345,6 +349,246 @@ func runC12Fault(t testing.TB, f c12fault, fsExec bool) (what string, fired bool
 	return "", true, nil
 }
 
+// ---- warm leg: a second, plain (non-accelerated) full scan that is handed
+// the first scan's digest cache and ignore cache, after one edit ----
+
+// c12warm is one case: Edit applied to Path of the fixed warm tree between a
+// cold scan and a warm scan under the given modes.
+type c12warm struct {
+	Edit string
+	Path string
+	Sym  int
+	Perm int
+}
+
+// warmEdits lists (edit, paths it is applied to). The warm tree is
+//
+//	f (0600) g (0700) l -> f   d/{ x (0644) y (0755) m -> x  e/ (empty)  k/{z} }
+var warmEdits = []struct {
+	edit  string
+	paths []string
+}{
+	{"none", []string{""}},
+	{"chmod+x", []string{"f", "d/x"}},
+	{"chmod-x", []string{"g", "d/y"}},
+	{"chmod-other", []string{"f", "g", "d/x"}}, // toggles a non-executable permission bit
+	{"rewrite", []string{"f", "g", "d/x"}},     // same size, new bytes, later mtime
+	{"grow", []string{"f", "g", "d/x"}},        // size change
+	{"swap", []string{"f", "g", "d/x"}},        // same size and mtime, new inode, new bytes
+	{"retarget", []string{"l", "d/m"}},
+	{"file2dir", []string{"f", "d/x"}},
+	{"dir2file", []string{"d/e", "d/k"}},
+	{"link2file", []string{"l"}},
+	{"file2link", []string{"f"}},
+	{"dir2link", []string{"d/e"}},
+	{"link2dir", []string{"d/m"}},
+	{"remove", []string{"g", "d/k"}},
+}
+
+func warmStamp(p string, sec int64) error {
+	tm := time.Unix(1_400_000_000+sec, 0)
+	return os.Chtimes(p, tm, tm)
+}
+
+func materializeWarmTree(root string) error {
+	if err := os.MkdirAll(filepath.Join(root, "d", "e"), 0o700); err != nil {
+		return err
+	}
+	if err := os.Mkdir(filepath.Join(root, "d", "k"), 0o700); err != nil {
+		return err
+	}
+	files := []struct {
+		rel  string
+		data string
+		mode os.FileMode
+	}{{"f", "ffff", 0o600}, {"g", "gggg", 0o700}, {"d/x", "xxxx", 0o644}, {"d/y", "yyyy", 0o755}, {"d/k/z", "zzzz", 0o600}}
+	for i, f := range files {
+		p := filepath.Join(root, f.rel)
+		if err := os.WriteFile(p, []byte(f.data), 0o600); err != nil {
+			return err
+		}
+		if err := os.Chmod(p, f.mode); err != nil {
+			return err
+		}
+		if err := warmStamp(p, int64(i+1)); err != nil {
+			return err
+		}
+	}
+	if err := os.Symlink("f", filepath.Join(root, "l")); err != nil {
+		return err
+	}
+	return os.Symlink("x", filepath.Join(root, "d", "m"))
+}
+
+// applyWarmEdit performs one edit with ordinary os calls. Every content change
+// gets a later mtime, except "swap", which changes the inode instead.
+func applyWarmEdit(root string, w c12warm) error {
+	p := filepath.Join(root, w.Path)
+	switch w.Edit {
+	case "none":
+		return nil
+	case "chmod+x", "chmod-x", "chmod-other":
+		fi, err := os.Lstat(p)
+		if err != nil {
+			return err
+		}
+		m := fi.Mode().Perm()
+		switch w.Edit {
+		case "chmod+x":
+			m |= 0o100
+		case "chmod-x":
+			m &^= 0o111
+		default:
+			m ^= 0o040
+		}
+		return os.Chmod(p, m)
+	case "rewrite":
+		if err := os.WriteFile(p, []byte("RRRR"), 0o600); err != nil {
+			return err
+		}
+		return warmStamp(p, 100)
+	case "grow":
+		if err := os.WriteFile(p, []byte("GGGGG"), 0o600); err != nil {
+			return err
+		}
+		return warmStamp(p, 101)
+	case "swap":
+		fi, err := os.Lstat(p)
+		if err != nil {
+			return err
+		}
+		tmp := filepath.Join(filepath.Dir(root), "swap-staging")
+		if err := os.WriteFile(tmp, []byte("SSSS"), 0o600); err != nil {
+			return err
+		}
+		if err := os.Chmod(tmp, fi.Mode().Perm()); err != nil {
+			return err
+		}
+		if err := os.Chtimes(tmp, fi.ModTime(), fi.ModTime()); err != nil {
+			return err
+		}
+		return os.Rename(tmp, p) // the old inode was still allocated when the new one was made
+	case "retarget":
+		if err := os.Remove(p); err != nil {
+			return err
+		}
+		return os.Symlink("g", p)
+	case "file2dir", "link2dir":
+		if err := os.Remove(p); err != nil {
+			return err
+		}
+		if err := os.Mkdir(p, 0o700); err != nil {
+			return err
+		}
+		q := filepath.Join(p, "n")
+		if err := os.WriteFile(q, []byte("nnnn"), 0o700); err != nil {
+			return err
+		}
+		return warmStamp(q, 102)
+	case "dir2file", "link2file":
+		if err := os.RemoveAll(p); err != nil {
+			return err
+		}
+		if err := os.WriteFile(p, []byte("NNNN"), 0o600); err != nil {
+			return err
+		}
+		return warmStamp(p, 103)
+	case "file2link", "dir2link":
+		if err := os.RemoveAll(p); err != nil {
+			return err
+		}
+		return os.Symlink("g", p)
+	case "remove":
+		return os.RemoveAll(p)
+	}
+	return fmt.Errorf("unknown edit %q", w.Edit)
+}
+
+// checkCacheAgainstDisk demands of the digest cache returned by a scan that
+// every file the walk expects as a file has an entry whose digest, mode and
+// size are what is on disk now.
+func checkCacheAgainstDisk(root string, want *xnode, rel string, cache *core.Cache) string {
+	if want == nil {
+		return ""
+	}
+	switch want.Kind {
+	case "dir":
+		names := make([]string, 0, len(want.Children))
+		for n := range want.Children {
+			names = append(names, n)
+		}
+		sort.Strings(names)
+		for _, n := range names {
+			crel := n
+			if rel != "" {
+				crel = rel + "/" + n
+			}
+			if d := checkCacheAgainstDisk(root, want.Children[n], crel, cache); d != "" {
+				return d
+			}
+		}
+	case "file":
+		var st syscall.Stat_t
+		if err := syscall.Lstat(filepath.Join(root, rel), &st); err != nil {
+			return "INFRA: " + err.Error()
+		}
+		ce := cache.GetEntries()[rel]
+		if ce == nil {
+			return fmt.Sprintf("%s: no entry in the returned digest cache", rel)
+		}
+		if !bytes.Equal(ce.Digest, want.Digest) {
+			return fmt.Sprintf("%s: returned digest cache has digest %x, the file's is %x", rel, ce.Digest, want.Digest)
+		}
+		if ce.Mode != st.Mode || ce.Size != uint64(st.Size) {
+			return fmt.Sprintf("%s: returned digest cache has mode %o size %d, the file has mode %o size %d", rel, ce.Mode, ce.Size, st.Mode, st.Size)
+		}
+	}
+	return ""
+}
+
+// runC12Warm: cold scan, one edit, warm full scan (no baseline, no recheck
+// paths; the first scan's caches), oracle on the warm result.
+func runC12Warm(t testing.TB, w c12warm, fsExec bool) (string, error) {
+	base, err := os.MkdirTemp("", "c12w")
+	if err != nil {
+		return "", err
+	}
+	defer os.RemoveAll(base)
+	root := filepath.Join(base, "root")
+	if err := materializeWarmTree(root); err != nil {
+		return "", err
+	}
+	m := modes{core.SymbolicLinkMode(w.Sym), core.PermissionsMode(w.Perm)}
+	ign := newIgnorer(t, nil)
+	o := walkOpts{m: m, fsExec: fsExec}
+	snap0, cache0, ic0, err := doScan(root, nil, nil, nil, ign, nil, m)
+	if err != nil {
+		return "", fmt.Errorf("cold scan: %w", err)
+	}
+	if d := checkSnapshot(root, snap0, o); d != "" {
+		return "cold scan of the warm tree: " + d, nil
+	}
+	if err := applyWarmEdit(root, w); err != nil {
+		return "", err
+	}
+	snap1, cache1, _, err := doScan(root, nil, nil, cache0, ign, ic0, m)
+	if err != nil {
+		return "warm scan failed: " + err.Error(), nil
+	}
+	if d := checkSnapshot(root, snap1, o); d != "" {
+		return fmt.Sprintf("warm scan after %s %s: %s", w.Edit, w.Path, d), nil
+	}
+	var wc xcounts
+	want, err := walk(root, "", o, &wc)
+	if err != nil {
+		return "", err
+	}
+	if d := checkCacheAgainstDisk(root, want, "", cache1); d != "" {
+		return fmt.Sprintf("warm scan after %s %s: %s", w.Edit, w.Path, d), nil
+	}
+	return "", nil
+}
+
 // classes lists the observed entry classes of a snapshot (vacuity guard).
 func classes(e *core.Entry, out map[string]bool) {
 	if e == nil {
@@ -396,6 +640,16 @@ func TestC12(t *testing.T) {
 	if raw := vr.ReplayCase(); raw != nil {
 		var c c12case
 		must(t, json.Unmarshal(raw, &c))
+		if c.Warm != nil {
+			what, err := runC12Warm(t, *c.Warm, fsExec)
+			must(t, err)
+			t.Logf("replay %s: verdict %q", vr.J(c), what)
+			r.Case(vr.J(c), true)
+			if what != "" {
+				r.Violate(vr.J(c), what, c, nil)
+			}
+			return
+		}
 		if c.Fault != nil {
 			what, fired, err := runC12Fault(t, *c.Fault, fsExec)
 			must(t, err)
@@ -431,7 +685,7 @@ func TestC12(t *testing.T) {
 	if vr.Thorough() {
 		shape = "every triple of leaves in slots (a, d/x, d/e/y) and every pair in slots (a,b)"
 	}
-	r.Rule(fmt.Sprintf("%s over a %d-leaf alphabet %v, plus the root itself as a regular file of each file kind and a missing root; each tree is created on disk and scanned cold by core.Scan under 3 symbolic link modes x 2 permissions modes (and again with the ignore pattern \"ig-*\" when it contains an ig- name). Before that, the mid-file fault leg: a fixed tree of six regular files (1..100 000 bytes, two levels) under each of 6 name rotations, each file > 32 KiB in turn faulted at every read ordinal k (EIO on that read, or one byte appended to the file just before it), portable/portable: the faulted file must be problematic (EIO) and every other entry and every returned digest-cache entry must match the walk exactly. Non-trivial = at least one slot is occupied / the fault fired; distinct by (tree, modes, patterns) / (rotation, target, k, action).", shape, n, ids))
+	r.Rule(fmt.Sprintf("%s over a %d-leaf alphabet %v, plus the root itself as a regular file of each file kind and a missing root; each tree is created on disk and scanned cold by core.Scan under 3 symbolic link modes x 2 permissions modes (and again with the ignore pattern \"ig-*\" when it contains an ig- name). Before that, the mid-file fault leg: a fixed tree of six regular files (1..100 000 bytes, two levels) under each of 6 name rotations, each file > 32 KiB in turn faulted at every read ordinal k (EIO on that read, or one byte appended to the file just before it), portable/portable: the faulted file must be problematic (EIO) and every other entry and every returned digest-cache entry must match the walk exactly. And the warm leg: a fixed 10-entry tree is scanned cold, one edit out of {chmod +x, chmod -x, chmod of another bit, same-size rewrite with later mtime, size change, same-size same-mtime inode swap, link retarget, file/dir/link type changes, removal} is applied, and a plain full scan that is handed the first scan's digest and ignore caches (no baseline, no recheck paths) must again match the walk, as must digest/mode/size of every entry of the returned digest cache; all 6 mode pairs. Non-trivial = at least one slot is occupied / the fault fired / an edit was applied; distinct by (tree, modes, patterns) / (rotation, target, k, action).", shape, n, ids))
 	r.Assume("Linux/ext4 scratch directory, probe mode \"probe\"; Unicode-decomposing filesystems are not available here",
 		"running as root: unreadable content is produced by verifhook-injected EACCES on openat / readlinkat and EIO on read, keyed by name prefix",
 		"in permissions mode manual a snapshot reports no executability (documented meaning of the mode)",
@@ -454,7 +708,7 @@ func TestC12(t *testing.T) {
 					if pat && !tr.hasIgnoredName() {
 						continue
 					}
-					c := c12case{tr, int(sym), int(perm), pat, nil}
+					c := c12case{Tree: tr, Sym: int(sym), Perm: int(perm), Patterns: pat}
 					what, snap := runC12(t, root, c, fsExec)
 					l.Case(vr.J(c), !tr.trivial())
 					if what != "" {
@@ -509,6 +763,31 @@ func TestC12(t *testing.T) {
 	}
 	r.Sample(c12case{Fault: &c12fault{2, "big100", 1, "eio"}})
 
+	// ---- warm leg (also run before the wide enumeration) ----
+	for _, we := range warmEdits {
+		for _, p := range we.paths {
+			for _, sym := range symModes {
+				for _, perm := range permModes {
+					w := c12warm{we.edit, p, int(sym), int(perm)}
+					c := c12case{Warm: &w}
+					what, err := runC12Warm(t, w, fsExec)
+					must(t, err)
+					r.Case(vr.J(c), we.edit != "none")
+					if what != "" {
+						r.Outcome("VIOLATION")
+						r.Violate(vr.J(c), what, c, func() bool {
+							x, err := runC12Warm(t, w, fsExec)
+							return err == nil && x != ""
+						})
+					} else {
+						r.Outcome("warm-" + we.edit + "-exact")
+					}
+				}
+			}
+		}
+	}
+	r.Sample(c12case{Warm: &c12warm{"chmod+x", "d/x", 2, 1}})
+
 	vr.Parallel(n, func(i int) {
 		l := r.Local()
 		defer l.Flush()
@@ -541,7 +820,7 @@ func TestC12(t *testing.T) {
 			evalTree(l, dir, &serial, c12tree{A: "-", B: "-", X: "-", Y: "-", Missing: true})
 		}
 	})
-	r.Sample(c12case{c12tree{A: "fx", B: "-", X: "l-up", Y: "bad-f"}, 2, 1, false, nil})
-	r.Sample(c12case{c12tree{A: "fifo", B: "tmp-d", X: "-", Y: "-"}, 3, 2, false, nil})
-	r.Sample(c12case{c12tree{A: "ig-d", B: "-", X: "-", Y: "noread-f"}, 1, 1, true, nil})
+	r.Sample(c12case{Tree: c12tree{A: "fx", B: "-", X: "l-up", Y: "bad-f"}, Sym: 2, Perm: 1, Patterns: false})
+	r.Sample(c12case{Tree: c12tree{A: "fifo", B: "tmp-d", X: "-", Y: "-"}, Sym: 3, Perm: 2, Patterns: false})
+	r.Sample(c12case{Tree: c12tree{A: "ig-d", B: "-", X: "-", Y: "noread-f"}, Sym: 1, Perm: 1, Patterns: true})
 }
